@@ -52,8 +52,9 @@ CASE_TIMEOUT = 10.0
 
 
 class Gen:
-    def __init__(self, rnd):
+    def __init__(self, rnd, custom=False):
         self.rnd = rnd
+        self.custom = custom    # also constructs declared by _custom_dbs() (real code only)
         self.k = 0
         self.comments = []      # (marker, visible_when_kept, in_math_id or None)
         self.maths = []         # (marker, source, open, close, display, visible)
@@ -110,6 +111,15 @@ class Gen:
         k = r.random()
         if k < 0.22 or depth >= 3:
             return r.choice(['word ', 'a b', ' text', 'x', '. ', 'two words ', '\n', 'ab\n'])
+        if self.custom and r.random() < 0.3:
+            if r.random() < 0.6 and not self.nobr:
+                # \weblink{url}{text}: comments and formulas are switched off in the url ONLY; the text is ordinary
+                url = r.choice(['http://a.b/c%d', 'x$y', 'u~v%w', 'plain', 'a%b$c', ''])
+                return '\\weblink{' + url + '}' + r.choice(['', ' ', '\n']) + '{' + self.items(depth + 1, visible) + '}'
+            # a formula environment whose body first declares \why{..} (discarded on output), then enters math mode
+            m = self.mk('DSC')
+            self.discards.append(m)
+            return '\\begin{derivation}x \\why{' + m + r.choice(['', ' $y$', ' z']) + '} = w\\end{derivation}'
         if k < 0.36:
             return self.comment(visible)
         if k < 0.50:
@@ -155,15 +165,43 @@ def _opts(rnd):
     return o
 
 
-def _case(s, o, meta):
-    modelled = 'fill_text' not in o
-    return {'wire': H.w_e2e(o, s, True) if modelled else [399],
-            'desc': {'s': s, 'opts': o, 'modelled': modelled, 'meta': meta},
+def _case(s, o, meta, custom=False):
+    modelled = 'fill_text' not in o and not custom
+    d = {'s': s, 'opts': o, 'modelled': modelled, 'meta': meta}
+    if custom:
+        d['custom'] = True
+    return {'wire': H.w_e2e(o, s, True) if modelled else [399], 'desc': d,
             'nt': bool(meta['comments']) and bool(meta['maths'])}
 
 
 def case_from_desc(d):
-    return _case(d['s'], d['opts'], d['meta'])
+    return _case(d['s'], d['opts'], d['meta'], d.get('custom', False))
+
+
+_custom = []
+
+
+def _custom_dbs():
+    """(parser database, converter database) declaring \\weblink{url}{text} and the environment derivation through the
+    public API, on top of the default databases"""
+    if not _custom:
+        from pylatexenc.latexwalker import get_default_latex_context_db as wdef
+        from pylatexenc.latex2text import get_default_latex_context_db as tdef, MacroTextSpec, EnvironmentTextSpec
+        from pylatexenc.macrospec import MacroSpec, EnvironmentSpec, ParsingStateDeltaExtendLatexContextDb
+        from pylatexenc.latexnodes import (LatexArgumentSpec, ParsingStateDelta, ParsingStateDeltaChained,
+                                           ParsingStateDeltaEnterMathMode)
+        w = wdef()
+        w.add_context_category('verif-custom', prepend=True, macros=[
+            MacroSpec('weblink', [LatexArgumentSpec('{', parsing_state_delta=ParsingStateDelta(
+                set_attributes=dict(enable_comments=False, enable_math=False))), LatexArgumentSpec('{')])],
+            environments=[EnvironmentSpec('derivation', '', body_parsing_state_delta=ParsingStateDeltaChained([
+                ParsingStateDeltaExtendLatexContextDb(extend_latex_context=dict(macros=[MacroSpec('why', '{')])),
+                ParsingStateDeltaEnterMathMode()]))])
+        t = tdef()
+        t.add_context_category('verif-custom', prepend=True, macros=[MacroTextSpec('why', discard=True), MacroTextSpec('weblink', simplify_repl='%s <%s>')],
+                               environments=[EnvironmentTextSpec('derivation', discard=False)])
+        _custom.append((w, t))
+    return _custom[0]
 
 
 def gen_cases(seed, tier):
@@ -176,6 +214,15 @@ def gen_cases(seed, tier):
             s += g.comment(True, last=True)
         meta = {'comments': g.comments, 'maths': g.maths, 'discards': g.discards}
         cases.append(_case(s, _opts(rnd), meta))
+    # specifications declared through the public API (per-argument and chained changes of the parsing state): real code only
+    r2 = random.Random(seed + 1201)
+    for _ in range(600 if tier == 'quick' else 10000):
+        g = Gen(r2, custom=True)
+        s = g.items(0, True)
+        if '\\weblink' not in s and '{derivation}' not in s:
+            continue
+        meta = {'comments': g.comments, 'maths': g.maths, 'discards': g.discards}
+        cases.append(_case(s, _opts(r2), meta, custom=True))
     return cases
 
 
@@ -215,13 +262,17 @@ def oracle(c):
     d = c['desc']
     o = d['opts']
     try:
-        out = LatexNodes2Text(**o).latex_to_text(d['s'])
+        if d.get('custom'):
+            wdb, tdb = _custom_dbs()
+            out = LatexNodes2Text(latex_context=tdb, **o).latex_to_text(d['s'], latex_context=wdb)
+        else:
+            out = LatexNodes2Text(**o).latex_to_text(d['s'])
     except Exception as e:
         return ('latex_to_text-raised-%s' % type(e).__name__, {})
     meta = d['meta']
     mm = o.get('math_mode', 'text')
     # the deprecated module-level entry points take the same two flags and must give what the class gives
-    if set(o) <= {'math_mode', 'keep_comments'} and mm in ('text', 'verbatim'):
+    if set(o) <= {'math_mode', 'keep_comments'} and mm in ('text', 'verbatim') and not d.get('custom'):
         import warnings
         from pylatexenc import latex2text as L2T
         kim, kc = (mm == 'verbatim'), bool(o.get('keep_comments'))
